@@ -22,18 +22,19 @@ def inv_cached_str_val(obj, v):
 
 @invariant("_cached_bool_val")
 def inv_cached_bool_val(obj, v):
-    return v is None or v == BV(obj)
+    return v is None or (v == BV(obj) and (v == 0 or v == 2)
+                         and (obj.orig_type != BOOL or obj._write_to_conf == W2C(obj)))
 
 
 @invariant("_cached_vis")
 def inv_cached_vis(obj, v):
-    return v is None or v == VIS(obj)
+    return v is None or (v == VIS(obj) and (v == 0 or v == 2))
 
 
 @invariant("_cached_selection")
 def inv_cached_selection(obj, v):
     # _NO_CACHED_SELECTION is the int 0; otherwise the cached selection is the epoch's selection
-    return (is_int(v) and v == 0) or v is SEL(obj)
+    return (is_int(v) and v == 0) or (v is SEL(obj) and (v is None or is_instance(v, "Symbol")))
 
 
 # ------------------------------------------------------------------------------------------------ shapes
@@ -304,3 +305,91 @@ class C_Choice_str_value:
 
     def ensures_value(self, result):
         return result == SV(self)
+
+
+# ------------------------------------------------------------------------------------------------ choices (C05)
+def first_visible_default(c):
+    """first `default` of the choice whose condition holds and whose member is visible"""
+    for sym, cond in c.defaults:
+        if EV(cond) != 0 and VIS(sym) != 0:
+            return sym
+    return None
+
+
+def first_visible_member(c):
+    for sym in c.syms:
+        if VIS(sym) != 0:
+            return sym
+    return None
+
+
+def DEF_SEL_FROM_DEFAULTS(c):
+    d = first_visible_default(c)
+    if d is not None:
+        return d
+    return first_visible_member(c)
+
+
+def DEF_SEL(c):
+    """C05: no selection unless the choice is in y mode; the user's pick if that member is visible, otherwise the
+    first default whose condition holds and whose member is visible, otherwise the first visible member"""
+    if BV(c) != 2:
+        return None
+    if c._user_selection is not None and VIS(c._user_selection) != 0:
+        return c._user_selection
+    return DEF_SEL_FROM_DEFAULTS(c)
+
+
+@contract(M, "Choice._selection_from_defaults", params=["self"], kind="method", cls="Choice", modifies=CACHES)
+class C_Choice__selection_from_defaults:
+    def ensures_value(self, result):
+        return result is DEF_SEL_FROM_DEFAULTS(self)
+
+    def ensures_member(self, result):
+        return result is None or is_instance(result, "Symbol")
+
+
+@contract(M, "Choice._selection", params=["self"], kind="method", cls="Choice", modifies=CACHES)
+class C_Choice__selection:
+    def assume_entry(self):
+        return SEL(self) is DEF_SEL(self)
+
+    def ensures_value(self, result):
+        return result is SEL(self)
+
+    def ensures_member(self, result):
+        return result is None or is_instance(result, "Symbol")
+
+
+@contract(M, "Choice.selection", params=["self"], kind="property", cls="Choice", modifies=CACHES)
+class C_Choice_selection:
+    def ensures_value(self, result):
+        return result is SEL(self)
+
+    def ensures_member(self, result):
+        return result is None or is_instance(result, "Symbol")
+
+
+# ------------------------------------------------------------------------------------------------ trusted helpers
+@contract(M, "Symbol.name_and_loc", params=["self"], kind="property", cls="Symbol", result="str", trusted=True,
+          note="diagnostic text only (name + definition locations); reads immutable tree fields")
+class C_Symbol_name_and_loc:
+    pass
+
+
+@contract(M, "Choice.name_and_loc", params=["self"], kind="property", cls="Choice", result="str", trusted=True,
+          note="diagnostic text only")
+class C_Choice_name_and_loc:
+    pass
+
+
+@contract(M, "Symbol._warn_select_unsatisfied_deps", params=["self"], kind="method", cls="Symbol", trusted=True,
+          modifies=CACHES, note="prints a warning; evaluates expressions (cache effects only)")
+class C_Symbol__warn_select:
+    pass
+
+
+@contract(M, "Symbol.type", params=["self"], kind="property", cls="Symbol", result="int")
+class C_Symbol_type:
+    def ensures_value(self, result):
+        return result == self.orig_type
